@@ -120,6 +120,17 @@ def run_child(scenario, target=None, kind=None, second=None):
                 pass
             code = 3
         finally:
+            if os.environ.get("VERIF_COV") and target is None:
+                # anchor-coverage audit: the fault-free counting runs
+                # stand for what the scenarios execute
+                try:
+                    import coverage
+                    cov = coverage.Coverage.current()
+                    if cov is not None:
+                        cov.stop()
+                        cov.save()
+                except Exception:
+                    pass
             os._exit(code)
     os.close(w)
     data = b""
